@@ -82,10 +82,24 @@ def leaf_spec(env, T, P, path, regions, mode, needs):
         exp["regions"].append((g["a0"] + w, False))
         exp["list"].append(r)
     if overrun is not None:
-        g = overrun._ghost
-        exp["trace"] = [("needs", z3.simplify(g["max"] - g["a0"]))]
-        exp["outcome"] = ("raise", "SizeConstraintExceededError", {"constraint": overrun, "violator_path": path, "exceeded_by": z3.simplify(g["a0"] + w - g["max"]),
-                                                                 "size_already": g["a0"], "size_max": g["max"]})
+        def rec_for(r):
+            g = r._ghost
+            return {"trace": [("needs", z3.simplify(g["max"] - g["a0"]))],
+                    "outcome": ("raise", "SizeConstraintExceededError", {"constraint": r, "violator_path": path, "exceeded_by": z3.simplify(g["a0"] + w - g["max"]),
+                                                                     "size_already": g["a0"], "size_max": g["max"]})}
+        first = rec_for(overrun)
+        exp["trace"], exp["outcome"] = first["trace"], first["outcome"]
+        if mode == "strict":
+            # the property does not say which of several regions overrun by the same field is named: any violated one will do
+            alts = [first]
+            seen = False
+            for r in regions:
+                if r is overrun:
+                    seen = True
+                    continue
+                if seen and r._ghost["state"] == "armed" and env.decide(r._ghost["a0"] + w > r._ghost["max"]):
+                    alts.append(rec_for(r))
+            exp["alts"] = alts
         return exp
     bs = needs[:w]
     v = z3.simplify(be_int(bs, P["signed"]))
@@ -217,11 +231,10 @@ def unit_leaf(tname, states, mode):
         while len(needs) < P["width"]:
             needs.append(ctx.fresh_int("bx", 0, 255))
 
-        def goal(exp):
+        def goals_for(trace_exp, eo):
             g = {}
-            for k, v in cmp_trace(ctx.trace, exp["trace"]).items():
+            for k, v in cmp_trace(ctx.trace, trace_exp).items():
                 g[f"trace/{k}"] = v
-            eo = exp["outcome"]
             if eo[0] == "return":
                 ok = outcome[0] == "return" and isinstance(outcome[1], tuple) and len(outcome[1]) == 2
                 g["outcome/returns"] = (ok, f"actual outcome {_safe(outcome)}")
@@ -236,10 +249,27 @@ def unit_leaf(tname, states, mode):
                 if ok:
                     for k, v in cmp_error(outcome[1].exc, eo[1], eo[2]).items():
                         g[f"outcome/{k}"] = v
-            for i, (r, (a, obs)) in enumerate(zip(regions, exp["regions"])):
-                g[f"region{i}/size_already"] = _eq(r.size_already, a)
-                g[f"region{i}/is_obsolete"] = r.is_obsolete is obs
-            g["list/members"] = (len(lst) == len(exp["list"]) and all(x is y for x, y in zip(lst, exp["list"])), f"{len(lst)} vs {len(exp['list'])}")
+            return g
+
+        def goal(exp):
+            if exp.get("alts") and len(exp["alts"]) > 1:
+                ors = []
+                for alt in exp["alts"]:
+                    vals = [v[0] if isinstance(v, tuple) else v for v in goals_for(alt["trace"], alt["outcome"]).values()]
+                    ors.append(conj(vals))
+                if any(o is True for o in ors):
+                    r = True
+                else:
+                    ors = [o for o in ors if o is not False]
+                    r = z3.Or(ors) if ors else False
+                return {"overrun/reported-for-one-of-the-violated-regions-with-consistent-details": r}
+            g = goals_for(exp["trace"], exp["outcome"])
+            if not (mode == "strict" and exp["outcome"][0] == "raise"):
+                # (after a strict-mode raise the region state is of no consequence)
+                for i, (r, (a, obs)) in enumerate(zip(regions, exp["regions"])):
+                    g[f"region{i}/size_already"] = _eq(r.size_already, a)
+                    g[f"region{i}/is_obsolete"] = r.is_obsolete is obs
+                g["list/members"] = (len(lst) == len(exp["list"]) and all(x is y for x, y in zip(lst, exp["list"])), f"{len(lst)} vs {len(exp['list'])}")
             return g
 
         if outcome[0] == "raise" and isinstance(outcome[1].exc, INTERNAL):
